@@ -821,6 +821,8 @@ func runC18(c *gen.Ctx) error {
 			}
 		}
 	}
+	// ---- the malformed stream of the strict codecs (c18bad.go)
+	c18BadGen(c)
 	// ---- strict codecs over sequences of calls (c18seq.go)
 	return c18SeqGen(c)
 }
